@@ -84,9 +84,6 @@ for B in ('C', 'R'):
 
 SMALL = 'Or(n == 1, n == 2, n == 4, n == 8)'
 NC = 'assumed: the constructor either throws or yields a plan of the requested size (its tables are built from other translation units)'
-fn('dsplib::FactorFFTPlan::FactorFFTPlan', F, key='FactorFFTPlan::FactorFFTPlan', serves=['C10', 'C01'], trusted=True, assigns=['this'], may_throw=True,
-   ensures=[('size', '_n == n')], notes=NC)
-
 
 def cache_user(fname, key, cache, others, maxn):
     """lookup-or-create: keyed by n itself, small sizes bypass the cache, the result has size n, the invariant is kept"""
